@@ -104,7 +104,9 @@ Fixpoint segs_inl (e : inl) : list (str * bool) :=
   | ILit s => [(s, false)]
   | IHtml s => [(s, false)]
   | IFootRef _ => []
-  | INode _ c => concat (map segs_inl c)      (* any element with list children is recursed into *)
+  | INode (KAuto _) c | INode (KUrl _) c =>     (* autolinks: their text is the URL, context only *)
+      map (fun e => match e with IRaw s => (s, false) | _ => ([], false) end) (filter (fun e => match e with IRaw _ => true | _ => false end) c)
+  | INode _ c => concat (map segs_inl c)      (* any other element with list children is recursed into *)
   end.
 Definition segs_inls (l : list inl) : list (str * bool) := concat (map segs_inl l).
 
@@ -117,6 +119,8 @@ Fixpoint wb_inl (e : inl) (conv : str) : inl * str :=
   | ILit s => (e, skipn (length s) conv)
   | IHtml s => (e, skipn (length s) conv)
   | IFootRef _ => (e, conv)
+  | INode (KAuto _) c | INode (KUrl _) c =>
+      (e, skipn (length (concat (map (fun x => match x with IRaw s => s | _ => [] end) c))) conv)
   | INode k c =>
       let '(c', rest) :=
         (fix go (l : list inl) (conv : str) : list inl * str :=
